@@ -864,6 +864,30 @@ def _get_position(node: ast.AST) -> _Position:
     return _Position(lineno, col_offset, end_lineno, end_col_offset)
 
 
+def _get_charno(source: str, lineno: int, col_offset: int) -> int:
+    """Get the character number of a position in an ast node.
+
+    Args:
+        source (str): Python source code
+        lineno (int): Line number, starting from 1
+        col_offset (int): Column, counted in utf8 bytes like the ast module does
+
+    Returns:
+        int: Character number in source
+    """
+    line_start_charnos = _get_line_start_charnos(source)
+    line_start = line_start_charnos[lineno - 1]
+    if lineno < len(line_start_charnos):
+        line = source[line_start : line_start_charnos[lineno]]
+    else:
+        line = source[line_start:]
+
+    if line.isascii():
+        return line_start + col_offset
+
+    return line_start + len(line.encode("utf-8")[:col_offset].decode("utf-8", errors="ignore"))
+
+
 def get_charnos(node: ast.AST, source: str, keep_first_indent: bool = False) -> Range:
     """Get start and end character numbers in source code from ast node.
 
@@ -874,7 +898,6 @@ def get_charnos(node: ast.AST, source: str, keep_first_indent: bool = False) -> 
     Returns:
         Tuple[int, int]: start, end
     """
-    line_start_charnos = _get_line_start_charnos(source)
     if match_template(node, ast.AST(decorator_list=list)) and node.decorator_list:
         start = min(node.decorator_list, key=_get_position)
     else:
@@ -883,11 +906,11 @@ def get_charnos(node: ast.AST, source: str, keep_first_indent: bool = False) -> 
     start_position = _get_position(start)
     node_position = _get_position(node)
 
-    start_charno = line_start_charnos[start_position.lineno - 1] + start_position.col_offset
+    start_charno = _get_charno(source, start_position.lineno, start_position.col_offset)
     if getattr(node, "end_lineno", None) is None:
         return Range(start_charno, start_charno)
 
-    end_charno = line_start_charnos[node_position.end_lineno - 1] + node_position.end_col_offset
+    end_charno = _get_charno(source, node_position.end_lineno, node_position.end_col_offset)
 
     code = source[start_charno:end_charno]
     if code and code[0] == " ":
